@@ -29,7 +29,7 @@ TRUSTED = ['models of pdf_prim.rs / pdf_obj.rs in coq/Model/Prim.v, coq/Model/Ob
            'correspondence run)']
 ASSUMPTIONS = ['buffer bytes are < 256', 'PDFObjContext::eol_after_stream_content is false (its only value: no setter exists)',
                'usize is 64 bits']
-CASE_TIMEOUT = 600
+CASE_TIMEOUT = 1500
 sys.setrecursionlimit(max(sys.getrecursionlimit(), 20000))
 
 KW = [b'endstream', b'endobj', b'stream', b'\nendstream', b'\r\nendstream\nendobj', b'endstream endobj', b'obj', b'>>']
@@ -189,11 +189,16 @@ def cases(tier, rng):
             else:
                 s[p] = rng.randrange(256)
             out.append('ind 10 %s %s mal' % (c[2], G.hx(bytes(s))))
-        # large payloads
-        for sz in ([1 << 16, 1 << 20, (1 << 20) + 1] if big else [1 << 14]):
+        # large payloads (the extracted model is super-linear in the buffer size: ~2 s for 64 KiB, ~15 s for 256 KiB,
+        # minutes for 1 MiB) — spread over the case list so that they land in different shards
+        large = []
+        for sz, decls in ([(1 << 16, 'all'), (1 << 18, 'all'), (1 << 20, 'exact')] if big else [(1 << 14, 'all')]):
             pl = bytes(rng.randrange(256) for _ in range(sz // 2)) + b'\nendstream\nendobj\n' + bytes(rng.randrange(256) for _ in range(sz // 2))
-            for decl in (len(pl), sz // 2, len(pl) + 1):
-                out.append(stream_case(rng, tier, pl, b'\r\n', b'\n', ('i%d' % decl, b'%d' % decl, [])))
+            for decl in ((len(pl), sz // 2, len(pl) + 1) if decls == 'all' else (len(pl),)):
+                large.append(stream_case(rng, tier, pl, b'\r\n', b'\n', ('i%d' % decl, b'%d' % decl, [])))
+        step = max(1, len(out) // (len(large) + 1))
+        for i, c in enumerate(large):
+            out.insert(min(len(out), (i + 1) * step + i), c)
     finally:
         G.PLUS[:] = saved
     return out
@@ -321,6 +326,14 @@ def classify(case, obs):
     return 'st:%s:%s' % (key, ' '.join(obs.split(' ')[:2]) if obs.startswith('err') else 'ok')
 
 
-LEVEL_TEXT = ''
-LEVEL_NOTE = ''
-TECHNIQUE = ''
+LEVEL_TEXT = ('Coq theorems: for EVERY payload byte list, `stream` LF|CRLF payload [CR][LF] `endstream` with the declared /Length '
+              '(direct or through the context) equal to the payload length yields exactly the payload, start = its offset, size = '
+              'its length, for any text before and after (C05_framing, C05_framing_indirect); whatever is accepted as a stream was '
+              'framed by the declared length and is followed by [EOL] endstream and endobj (C05_sound, C05_sound_indirect); missing / '
+              'negative / non-integer / reference-to-non-integer length => GuardError, undefined reference => InsufficientContext, '
+              'too long => EndOfBuffer, CR alone or anything but [CR]LF after `stream` and a missing endstream => GuardError; '
+              'tied to pdf_obj.rs/pdf_prim.rs by a differential run over adversarial payload/length pairs')
+LEVEL_NOTE = ('trusted: Coq kernel, hand transcriptions coq/Model/Prim.v (StreamContentP) + coq/Model/Obj.v (IndirectP), extraction + '
+              'ocaml/drv.ml, harness/src/bin/c05.rs; eol_after_stream_content is false (no setter exists); usize = 64 bits; the model '
+              'clamps lengths above the buffer size (proved equivalent: stream_content_clamp)')
+TECHNIQUE = 'Coq proof: translation invariance + computation of StreamContentP on an arbitrary payload, inversion for soundness + differential correspondence'
